@@ -1,54 +1,43 @@
 /-
 C03 — Engine shot accounting.
 
-Model: `Pandora.Model.C03` — the instance loop of core/engine/instance.go as a labelled transition system over
-a shared or per-instance finite schedule and a bounded/unbounded provider.  A trace `evs : List Ev` is ANY
-interleaving of ANY number of instances (events that are not enabled make `run` return `none`); the theorems
-hold for every accepted trace.  Tie: the correspondence harness replays the event log of the REAL engine
-through `step` (every observed event must be enabled) and evaluates `Spec.C03.verdict` on the real counters.
+Model: `Pandora.Model.C03` — one instance pool of the engine as a labelled transition system over a shared or
+per-instance finite schedule and a bounded/unbounded provider: instances are started at arbitrary moments of the run
+(event `start`), each runs the loop of core/engine/instance.go `instance.Run` (IsFinished check via `Left()`, Acquire,
+Wait/`Next()`, fire-or-discard decision, `Request.Add`, `Shoot`, `Response.Add`, deferred Release); ammo items carry
+identities.  A trace `evs : List Ev` is ANY interleaving of ANY number of instances (events that are not enabled make
+`run` return `none`); the theorems hold for every accepted trace, with no bound on instances, tokens, ammo or length.
+
+Tie: (1) the correspondence harness replays the event log of the REAL engine through `step` (every observed event
+must be enabled, item identities included) and evaluates `Spec.C03.verdict` on the real counters; (2) the body of one
+loop iteration, `IsFinished`, `Wait`, the schedule sharing of `buildNewInstanceSchedule` and `AmmoQueue` are
+regenerated from the current source and `Pandora.Bridge.InstLoop` proves them to be paths/facts of this model.
 -/
-import Pandora.Proofs.C03
+import Pandora.Proofs.C03Reach
 import Pandora.Spec.C03
+import Pandora.Bridge.InstLoop
 
 namespace Pandora.Props.C03
 open Pandora.Model.C03 Pandora.Proofs.C03
 
-theorem reach_invA {c : Cfg} {evs : List Ev} {s : St} (h : run c (init c) evs = some s) : InvA c s :=
-  run_inv (P := InvA c) (fun _ _ _ hp hs => step_invA hp hs) evs _ _ (init_invA c) h
-
-theorem reach_invS {c : Cfg} (hc : c.perInstance = false) {evs : List Ev} {s : St}
-    (h : run c (init c) evs = some s) : InvS c s :=
-  run_inv (P := InvS c) (fun _ _ _ hp hs => step_invS hc hp hs) evs _ _ (init_invS c) h
-
-theorem reach_invP {c : Cfg} (hc : c.perInstance = true) {evs : List Ev} {s : St}
-    (h : run c (init c) evs = some s) : InvP c s :=
-  run_inv (P := InvP c) (fun _ _ _ hp hs => step_invP hc hp hs) evs _ _ (init_invP c) h
-
-theorem all_done {s : St} (ht : s.terminal = true) (i : Nat) (hi : i < s.pcs.length) : s.pcs[i]? = some Pc.done := by
-  unfold St.terminal at ht
-  rw [List.all_eq_true] at ht
-  rw [List.getElem?_eq_getElem hi]
-  have := ht s.pcs[i] (List.getElem_mem hi)
-  simp at this
-  rw [this]
-
-/-- **fired + discarded = min(tokens, ammo)** when the pool ends normally (every instance left its loop),
-for every instance count ≥ 1, both profile modes, every ammo bound and every interleaving. -/
-theorem C03_total (c : Cfg) (evs : List Ev) (s : St) (hN : 0 < c.instances)
-    (hrun : run c (init c) evs = some s) (ht : s.terminal = true) :
-    s.fired + s.discarded = minOpt c.totalTokens c.ammo := by
+/-- **fired + discarded = min(tokens, ammo)** when the pool ends normally (every started instance has left its loop)
+and at least one instance was started; tokens = the shared profile, or one full profile per STARTED instance.
+For every number of instances started at any moments, both profile modes, every ammo bound and every interleaving. -/
+theorem C03_total (c : Cfg) (evs : List Ev) (s : St) (hrun : run c (init c) evs = some s) (ht : s.terminal = true)
+    (hN : 0 < s.started) : s.fired + s.discarded = minOpt (s.totalTokens c) c.ammo := by
   have hA := reach_invA hrun
-  have cW := count_of_terminal ht .wait (by decide)
-  have cD := count_of_terminal ht .decide (by decide)
+  have cW := count_of_terminal ht .wait (by decide) (by decide)
+  have cD := count_of_terminal ht .decide (by decide) (by decide)
+  have cF := count_of_terminal ht .firing (by decide) (by decide)
   have hcls := hA.classified
   have hammo := hA.ammo
   cases hc : c.perInstance with
   | false =>
     have hS := reach_invS hc hrun
-    have hd := hS.done 0 (all_done ht 0 (by rw [hA.len]; exact hN))
+    have hd := hS.done 0 (started_done hA ht 0 hN)
     have htok := hS.tok
     have hunf := hS.unfPos
-    simp only [Cfg.totalTokens, hc, Bool.false_eq_true, if_false]
+    simp only [St.totalTokens, hc, Bool.false_eq_true, if_false]
     cases ha : c.ammo with
     | none =>
       rw [ha] at hammo
@@ -75,7 +64,7 @@ theorem C03_total (c : Cfg) (evs : List Ev) (s : St) (hN : 0 < c.instances)
     have hP := reach_invP hc hrun
     have htok := hP.tok
     have hunf := hP.unf0
-    simp only [Cfg.totalTokens, hc, if_true]
+    simp only [St.totalTokens, hc, if_true]
     by_cases hz : s.ammoLeft = some 0
     · cases ha : c.ammo with
       | none => rw [ha] at hammo; rw [hammo] at hz; cases hz
@@ -89,10 +78,12 @@ theorem C03_total (c : Cfg) (evs : List Ev) (s : St) (hN : 0 < c.instances)
     · have hsum : s.own.sum = 0 := by
         apply sum_zero_of_all
         intro i hi
-        have hi' : i < s.pcs.length := by rw [hP.pcsLen, ← hP.ownLen]; exact hi
-        rcases hP.done i (all_done ht i hi') with h | h
-        · exact h
-        · exact absurd h hz
+        rw [hP.ownLen] at hi
+        rcases Nat.lt_or_ge i s.started with hlt | hge
+        · rcases hP.done i (started_done hA ht i hlt) with h | h
+          · exact h
+          · exact absurd h hz
+        · exact hP.ownIdle i (hA.idleHi i hge hi)
       cases ha : c.ammo with
       | none => simp only [minOpt]; omega
       | some a0 =>
@@ -101,51 +92,100 @@ theorem C03_total (c : Cfg) (evs : List Ev) (s : St) (hN : 0 < c.instances)
         simp only [minOpt]
         omega
 
-/-- every acquired item is released exactly once: acquisitions and releases pair up when the pool ends
-(an item is released only from the `release` state, which is entered once per acquisition) -/
+/-- the clause read without "at least one instance was started" -/
+def C03_total_zero_instances_statement : Prop :=
+  ∀ (c : Cfg) (evs : List Ev) (s : St), run c (init c) evs = some s → s.terminal = true →
+    s.fired + s.discarded = minOpt (s.totalTokens c) c.ammo
+
+/-- … is false for a shared profile when the startup schedule starts nothing: nothing is fired although tokens and
+ammo exist (a degenerate configuration; the engine behaves the same way, see corpus/C03.txt `inst=0`) -/
+theorem C03_total_zero_instances_counterexample : ¬ C03_total_zero_instances_statement := by
+  intro h
+  have := h ⟨false, 1, some 1, false, 0⟩ [] _ rfl (by decide)
+  revert this
+  decide
+
+/-- every acquired item is released: acquisitions and releases pair up when the pool ends, and every acquired item is
+accounted for as fired, discarded or unfired -/
 theorem C03_release (c : Cfg) (evs : List Ev) (s : St)
     (hrun : run c (init c) evs = some s) (ht : s.terminal = true) :
     s.acquired = s.released ∧ s.acquired = s.fired + s.discarded + s.unfired := by
   have hA := reach_invA hrun
-  have cW := count_of_terminal ht .wait (by decide)
-  have cD := count_of_terminal ht .decide (by decide)
-  have cR := count_of_terminal ht .release (by decide)
+  have cW := count_of_terminal ht .wait (by decide) (by decide)
+  have cD := count_of_terminal ht .decide (by decide) (by decide)
+  have cF := count_of_terminal ht .firing (by decide) (by decide)
+  have cS := count_of_terminal ht .shot (by decide) (by decide)
+  have cR := count_of_terminal ht .release (by decide) (by decide)
   have h1 := hA.held
   have h2 := hA.classified
   constructor <;> omega
 
-/-- in every reachable state: held items = acquired − released = instances between Acquire and Release;
-an item is shot or discarded only while held (events `shoot`/`discard` are enabled only in state `decide`) -/
-theorem C03_no_use_after_release (c : Cfg) (evs : List Ev) (s : St) (hrun : run c (init c) evs = some s) :
-    s.acquired = s.released + s.pcs.count .wait + s.pcs.count .decide + s.pcs.count .release :=
+/-- **released exactly once**: when the pool ends, each single item `k` that was acquired has been passed to
+`Release` exactly one time -/
+theorem C03_release_exactly_once (c : Cfg) (evs : List Ev) (s : St)
+    (hrun : run c (init c) evs = some s) (ht : s.terminal = true) (k : Nat) (hk : k < s.acquired) :
+    s.rels[k]? = some 1 :=
+  all_released (reach_invI hrun) ht k hk
+
+/-- no item is ever released twice or more, at any moment of any run -/
+theorem C03_release_at_most_once (c : Cfg) (evs : List Ev) (s : St) (hrun : run c (init c) evs = some s)
+    (k v : Nat) (hk : s.rels[k]? = some v) : v ≤ 1 := by
+  rcases (reach_invI hrun).relsOk k v hk with ⟨h, _⟩ | h <;> omega
+
+/-- **not used after release**: whenever `gun.Shoot` is called (event `shoot i k` enabled after any run), the item
+passed is the one instance `i` acquired in this iteration and it has not been released; likewise `Release` is only
+ever called on an item that is held.  (`step` does not check this: `badUse` would record it.) -/
+theorem C03_no_use_after_release (c : Cfg) (pre : List Ev) (s s' : St) (i k : Nat)
+    (hrun : run c (init c) pre = some s) (hstep : step c s (.shoot i k) = some s' ∨ step c s (.rel i k) = some s') :
+    s.cur[i]? = some (some k) ∧ s.heldItem k = true ∧ s'.badUse = false := by
+  have hI := reach_invI hrun
+  have hcur : s.cur[i]? = some (some k) := by
+    rcases hstep with h | h <;> (simp only [step] at h; split at h)
+    · rename_i hg; exact hg.2
+    · cases h
+    · rename_i hg; exact hg.2
+    · cases h
+  have hheld : s.heldItem k = true := by simp [St.heldItem, cur_held hI hcur]
+  refine ⟨hcur, hheld, ?_⟩
+  rcases hstep with h | h <;> exact (step_invI hI h).good
+
+/-- the flag that records a Shoot or Release of a not-held item is never set -/
+theorem C03_never_bad_use (c : Cfg) (evs : List Ev) (s : St) (hrun : run c (init c) evs = some s) :
+    s.badUse = false := (reach_invI hrun).good
+
+/-- in every reachable state: held items = acquired − released = instances between Acquire and Release -/
+theorem C03_held_count (c : Cfg) (evs : List Ev) (s : St) (hrun : run c (init c) evs = some s) :
+    s.acquired = s.released + s.pcs.count .wait + s.pcs.count .decide + s.pcs.count .firing + s.pcs.count .shot
+      + s.pcs.count .release :=
   (reach_invA hrun).held
 
-theorem count_true_lt {l : List Bool} {j : Nat} (h : l[j]? = some false) : l.count true + 1 ≤ l.length := by
-  induction l generalizing j with
-  | nil => simp at h
-  | cons a l ih =>
-    cases j with
-    | zero =>
-      simp at h; subst h
-      have := List.count_le_length (a := true) (l := l)
-      simp; omega
-    | succ j =>
-      have := ih (j := j) (by simpa using h)
-      cases a <;> simp <;> omega
-
-/-- shared finite profile: at most (instances − 1) acquired items go unfired -/
+/-- shared finite profile: at most (started instances − 1) ≤ (instances − 1) acquired items go unfired -/
 theorem C03_unfired_shared (c : Cfg) (evs : List Ev) (s : St) (hc : c.perInstance = false)
     (hrun : run c (init c) evs = some s) (ht : s.terminal = true) :
-    s.acquired - (s.fired + s.discarded) ≤ c.instances - 1 := by
+    s.acquired - (s.fired + s.discarded) ≤ s.started - 1 ∧ s.started - 1 ≤ c.instances - 1 := by
   have hS := reach_invS hc hrun
+  have hA := reach_invA hrun
   have hrel := (C03_release c evs s hrun ht).2
+  refine ⟨?_, by have := hA.startedLe; omega⟩
   rcases Nat.eq_zero_or_pos s.unfired with h0 | hpos
   · omega
   · obtain ⟨hsh, htok⟩ := hS.unfPos hpos
-    obtain ⟨j, _, hj, _⟩ := hS.last hsh htok
-    have := count_true_lt hj
+    obtain ⟨j, _, hj, hjpc⟩ := hS.last hsh htok
+    have hjlt : j < s.started := by
+      rcases Nat.lt_or_ge j s.started with h | h
+      · exact h
+      · have hjl : j < c.instances := by have := lt_of_get hj; rw [hS.unfLen] at this; exact this
+        have := hA.idleHi j h hjl
+        rw [this] at hjpc
+        simp [drawn_some] at hjpc
+    have hbeyond : ∀ i : Nat, s.started ≤ i → s.unf[i]? ≠ some true := by
+      intro i hi hf
+      have hil : i < c.instances := by have := lt_of_get hf; rw [hS.unfLen] at this; exact this
+      have hp := (hS.unfPc i hf).2
+      rw [hA.idleHi i hi hil] at hp
+      simp [Parked] at hp
+    have := count_true_lt_beyond s.unf s.started j hjlt hj hbeyond
     have h1 := hS.unfCnt
-    have h2 := hS.unfLen
     omega
 
 /-- one full profile per instance: no acquired item ever goes unfired -/
@@ -156,18 +196,76 @@ theorem C03_unfired_per_instance (c : Cfg) (evs : List Ev) (s : St) (hc : c.perI
   have := (C03_release c evs s hrun ht).2
   omega
 
-/-- the engine's request and response counters equal the number of fired requests, in every reachable state -/
-theorem C03_metrics (c : Cfg) (evs : List Ev) (s : St) (hrun : run c (init c) evs = some s) :
-    s.request = s.fired ∧ s.response = s.fired := (reach_invA hrun).metrics
+/-- the engine's request and response counters equal the number of fired requests when the pool ends … -/
+theorem C03_metrics (c : Cfg) (evs : List Ev) (s : St) (hrun : run c (init c) evs = some s) (ht : s.terminal = true) :
+    s.request = s.fired ∧ s.response = s.fired := by
+  have h := (reach_invA hrun).metrics
+  have cF := count_of_terminal ht .firing (by decide) (by decide)
+  have cS := count_of_terminal ht .shot (by decide) (by decide)
+  omega
+
+/-- … and during the run they differ from it exactly by the shots in progress: Request runs ahead by the instances
+between `Request.Add` and `Shoot`, Response lags by those between `Shoot` and `Response.Add` -/
+theorem C03_metrics_running (c : Cfg) (evs : List Ev) (s : St) (hrun : run c (init c) evs = some s) :
+    s.request = s.fired + s.pcs.count .firing ∧ s.response + s.pcs.count .shot = s.fired :=
+  (reach_invA hrun).metrics
 
 /-- with discard_overflow off nothing is ever discarded -/
 theorem C03_discard_off (c : Cfg) (evs : List Ev) (s : St) (hoff : c.discardOn = false)
     (hrun : run c (init c) evs = some s) : s.discarded = 0 := (reach_invA hrun).discOff hoff
 
--- non-vacuity: 2 instances, shared once(1), 2 ammo, the second instance acquires an item that goes unfired
-example : ∃ s, run ⟨false, 1, some 2, true, 2⟩ (init ⟨false, 1, some 2, true, 2⟩)
-    [.chk 0 1, .chk 1 1, .acq 0, .acq 1, .tokOk 0, .tokEnd 1, .discard 0, .rel 1, .rel 0, .chk 0 0, .chk 1 0] = some s ∧
-    s.terminal = true ∧ s.fired + s.discarded = 1 ∧ s.unfired = 1 := by
+/-- the number of started instances never exceeds what the startup schedule allows -/
+theorem C03_started_le (c : Cfg) (evs : List Ev) (s : St) (hrun : run c (init c) evs = some s) :
+    s.started ≤ c.instances := (reach_invA hrun).startedLe
+
+/-- the loop iteration REGENERATED from the current source of `instance.Run` is, for every answer of the environment,
+a path of the model that ends where the model says, with the item released once (see `Pandora.Bridge.InstLoop`) -/
+theorem C03_source_iteration_is_model_path :
+    Pandora.Model.C03Loop.bodyAccepted Pandora.Gen.InstLoop.iterBody = true := Pandora.Bridge.InstLoop.iterBody_accepted
+
+/-- the regenerated `IsFinished` leaves the loop exactly when `Left() = 0` — the model's `chk` event -/
+theorem C03_source_isFinished (left : Nat) : Pandora.Gen.InstLoop.isFinished false (left : Int) = true ↔ left = 0 :=
+  Pandora.Bridge.InstLoop.isFinished_iff left
+
+/-! ### non-vacuity: each hypothesis is met by a concrete non-trivial run -/
+
+-- shared once(1), 2 ammo, two instances started one after the other; the second acquires an item that goes unfired;
+-- the first discards.  terminal, started = 2 > 0, unfired = 1 = started − 1
+example : ∃ s, run ⟨false, 1, some 2, true, 3⟩ (init ⟨false, 1, some 2, true, 3⟩)
+    [.start 0, .chk 0 1, .start 1, .chk 1 1, .acq 0, .acq 1, .tokOk 0, .tokEnd 1, .discard 0, .rel 1 1, .rel 0 0,
+     .chk 0 0, .chk 1 0] = some s ∧
+    s.terminal = true ∧ s.started = 2 ∧ s.fired + s.discarded = 1 ∧ s.unfired = 1 ∧ s.rels = [1, 1] := by
+  refine ⟨_, rfl, by decide, by decide, by decide, by decide, by decide⟩
+
+-- per-instance once(1) × 2 started instances, 3 ammo: both fire with the counters moving one at a time;
+-- the second instance is started after the first has finished
+example : ∃ s, run ⟨true, 1, some 3, false, 2⟩ (init ⟨true, 1, some 3, false, 2⟩)
+    [.start 0, .chk 0 1, .acq 0, .tokOk 0, .reqAdd 0, .shoot 0 0, .respAdd 0, .rel 0 0, .chk 0 0,
+     .start 1, .chk 1 1, .acq 1, .tokOk 1, .reqAdd 1, .shoot 1 1, .respAdd 1, .rel 1 1, .chk 1 0] = some s ∧
+    s.terminal = true ∧ s.started = 2 ∧ s.fired = 2 ∧ s.request = 2 ∧ s.response = 2 ∧ s.acquired = 2 := by
+  refine ⟨_, rfl, by decide, by decide, by decide, by decide, by decide, by decide⟩
+
+-- out of ammo: 1 item, 5 shared tokens
+example : ∃ s, run ⟨false, 5, some 1, false, 1⟩ (init ⟨false, 5, some 1, false, 1⟩)
+    [.start 0, .chk 0 5, .acq 0, .tokOk 0, .reqAdd 0, .shoot 0 0, .respAdd 0, .rel 0 0, .chk 0 4, .empty 0] = some s ∧
+    s.terminal = true ∧ s.fired = 1 ∧ minOpt (s.totalTokens ⟨false, 5, some 1, false, 1⟩) (some 1) = 1 := by
   refine ⟨_, rfl, by decide, by decide, by decide⟩
+
+-- `C03_no_use_after_release`: a Shoot and a Release that are enabled after a run
+example : ∃ s s', run ⟨false, 1, none, false, 1⟩ (init ⟨false, 1, none, false, 1⟩)
+    [.start 0, .chk 0 1, .acq 0, .tokOk 0, .reqAdd 0] = some s ∧ step ⟨false, 1, none, false, 1⟩ s (.shoot 0 0) = some s' :=
+  ⟨_, _, rfl, rfl⟩
+
+-- the transition system itself does not forbid a Shoot of a released item: from a (non-reachable) state where the
+-- local variable still names a released item the event is enabled and `badUse` is set — so `C03_never_bad_use` is
+-- a statement about reachable states, not about the shape of `step`
+example : (step ⟨false, 1, none, false, 1⟩
+    { pcs := [.firing], started := 1, shared := 0, own := [0], ammoLeft := none, unf := [false],
+      cur := [some 0], rels := [1], acquired := 1, released := 1 } (.shoot 0 0)).map (·.badUse) = some true := by decide
+
+-- a mutated iteration body (Wait before Acquire) is NOT accepted: the bridge obligation is falsifiable
+example : Pandora.Model.C03Loop.bodyAccepted
+    [.waitOrReturn, .acquireOrReturn "ammo", .deferRelease "ammo", .ifFire, .metricAdd "Request" 1, .shoot "ammo",
+     .metricAdd "Response" 1, .orElse, .reportDiscard, .endIf, .returnNil] = false := by decide
 
 end Pandora.Props.C03
